@@ -1,6 +1,8 @@
 """C02 — CIDR bit identities, setters, mask predicates.
-Ops: net_attrs ver v p ; net_sets ver v p [setter ops] ; net_sets_trace ver v p [setter ops] ; mask_pred ver v"""
-from common import Case, W, value_classes, rand_value, errname, plist, tf, optint
+Ops: net_attrs ver v p ; net_sets ver v p [setter ops] ; net_sets_trace ver v p [setter ops] ; mask_pred ver v ;
+net_sets_x be ver v p [setter ops] ; net_sets_x_trace be ver v p [setter ops]  (setter ops with every argument form of
+the netmask setter: m:s:<hex text> = a str, m:n:ver:val:plen = an IPNetwork object; exact error class printed)"""
+from common import Case, W, value_classes, rand_value, errname, plist, tf, optint, hexs
 import common
 import netaddr
 from netaddr import IPNetwork, IPAddress
@@ -10,7 +12,12 @@ RULE = ('net_attrs: every prefix 0..width x structured value classes x both fami
         'sequences (value/prefixlen/netmask with in-range, boundary, out-of-range and non-int arguments), every history '
         'also run on an instrumented subclass that counts slot stores per assignment (net_sets_trace); mask_pred: '
         'all contiguous masks, their +-1 neighbours, single-bit-hole masks, random. non-trivial = distinct case whose '
-        'implementation output is not an error')
+        'implementation output is not an error. net_sets_x / net_sets_x_trace: setter histories whose netmask '
+        'assignments take STRING arguments (the netmask / hostmask / one-bit-off mask of every prefix in dotted quad, '
+        'C-literal hex / octal / decimal, 2- and 3-part BSD shorthand, IPv6 compact / full / verbose / upper case, with '
+        'whitespace tails, with a "/" part, other-family texts, near-miss address texts, junk) and IPNetwork-object '
+        'arguments (any prefix length, both families), mixed with the int / IPAddress / junk forms; real setter calls, '
+        'exact error class compared with the model, slot stores counted')
 ALLOWED = ('addrFormat', 'value', 'type')
 
 
@@ -59,6 +66,118 @@ def _setop(rng, ver):
     return (kind,) + x
 
 
+def _quad(v):
+    return '%d.%d.%d.%d' % (v >> 24, (v >> 16) & 255, (v >> 8) & 255, v & 255)
+
+
+def _spell4(rng, v):
+    """a text inet_aton reads as v (or, for the last few kinds, just does not)"""
+    from props.c01 import c_literal
+    k = rng.randrange(12)
+    o = [v >> 24, (v >> 16) & 255, (v >> 8) & 255, v & 255]
+    if k <= 2:
+        return _quad(v)
+    if k == 3:
+        return rng.choice(['0x%08x', '0x%x', '0X%X', '0%o', '%d']) % v
+    if k == 4:
+        return '.'.join(c_literal(rng, x) for x in o)
+    if k == 5:
+        return '%s.%s' % (c_literal(rng, o[0]), c_literal(rng, v & 0xffffff))
+    if k == 6:
+        return '%s.%s.%s' % (c_literal(rng, o[0]), c_literal(rng, o[1]), c_literal(rng, v & 0xffff))
+    if k == 7:
+        return _quad(v) + rng.choice([' ', '\t', '\n', ' x', ' /24', '\t255.0.0.0'])
+    if k == 8:
+        return '.'.join(('%%0%dd' % rng.randrange(2, 5)) % x for x in o)       # zero-padded: octal to inet_aton
+    if k == 9:
+        return rng.choice([' ', '+', '-', '0x']) + _quad(v)
+    if k == 10:
+        return '.'.join('%d' % x for x in o[:rng.randrange(1, 4)])                # dropped trailing octets: BSD shorthand
+    return _quad(v) + rng.choice(['/%d' % rng.randrange(0, 33), '/', '/' + _quad(v), '.', '.0'])
+
+
+def _spell6(rng, v):
+    from props.c01 import ref_ntop6, spelling6
+    k = rng.randrange(8)
+    if k <= 1:
+        return ref_ntop6(v)
+    if k == 2:
+        return ':'.join('%x' % ((v >> sh) & 0xffff) for sh in range(112, -1, -16))
+    if k == 3:
+        return ':'.join('%04x' % ((v >> sh) & 0xffff) for sh in range(112, -1, -16))
+    if k == 4:
+        return ref_ntop6(v).upper()
+    if k == 5:
+        return spelling6(rng, v)
+    if k == 6:
+        return ref_ntop6(v) + rng.choice(['/%d' % rng.randrange(0, 129), '/', ' ', '%eth0', ':'])
+    return rng.choice([' ', '[', '0x']) + ref_ntop6(v)
+
+
+MASK_NEAR = ['255.255.0.0', '0xffff0000', '0XFFFF0000', '037777600000', '4294901760', '255.255', '255.255.255', '255.0xffff00',
+             '255.255.0xff00', '0377.0377.0.0', '255.255.000.000', 'a/b', 'bad', '', ' ', '/', '255.255.0.0/16', '255.255.0.0 ',
+             '255.255.0.0 x', ' 255.255.0.0', '255.255.0.0\n', '0.0.0.0', '0', '00', '0x0', '255.255.255.255', '0xffffffff',
+             '4294967295', '4294967296', '0.0.0.255', '0.0.255.255', '255', '65535', '255.0.255.0', '255.255.255.254',
+             '255.255.255.253', '128.0.0.0', '0x80000000', '2147483648', '127.255.255.255', '::', 'ffff::', 'FFFF::',
+             'ffff:ffff:ffff:ffff::', 'ffff:ffff:ffff:ffff:ffff:ffff:ffff:ffff', '::ffff:255.255.0.0', '::255.255.0.0',
+             '::ffff', '8000::', 'ffff:0:ffff::', '::1', 'ffff::/16', '255.255.0.0.', '255,255,0,0', '1e1', '0b1', '+0', '-0',
+             '255.255.0.0\x00', '0xffff0000 ', '0x', '0xg', '00000000377.255.0.0', '256.0.0.0', '255.256', '255.16777216']
+
+
+def _mask_str(rng, ver):
+    """a string argument for the netmask setter of a family-`ver` network"""
+    from props.c01 import NEAR4, NEAR6, edits
+    r = rng.random()
+    if r < 0.12:
+        return rng.choice(MASK_NEAR)
+    if r < 0.17:
+        return rng.choice(NEAR4 + NEAR6)
+    mver = ver if rng.random() < 0.85 else 10 - ver
+    w = W[mver]
+    m = (1 << w) - 1
+    p = rng.randrange(0, w + 1)
+    mask = m ^ ((1 << (w - p)) - 1)
+    k = rng.random()
+    if k < 0.6:
+        val = mask
+    elif k < 0.7:
+        val = m ^ mask                                   # the hostmask
+    elif k < 0.85:
+        val = mask ^ (1 << rng.randrange(0, w))          # hole or extra bit
+    elif k < 0.9:
+        val = rng.choice([mask + 1, mask - 1]) & m
+    else:
+        val = rand_value(rng, w)
+    t = _spell4(rng, val) if mver == 4 else _spell6(rng, val)
+    if rng.random() < 0.1:
+        t = edits(rng, t, 1)
+    return t
+
+
+def _setop_x(rng, ver):
+    r = rng.random()
+    if r < 0.45:
+        t = _mask_str(rng, ver)
+        if all(ord(c) < 128 for c in t):
+            return ('m', 's', t)
+        return ('m', 's', 'bad')
+    if r < 0.6:
+        mver = ver if rng.random() < 0.8 else 10 - ver
+        w = W[mver]
+        m = (1 << w) - 1
+        p = rng.randrange(0, w + 1)
+        mask = m ^ ((1 << (w - p)) - 1)
+        val = rng.choice([mask, mask, mask, m ^ mask, mask ^ (1 << rng.randrange(0, w)), rand_value(rng, w)])
+        return ('m', 'n', mver, val, rng.choice([p, 0, w, rng.randrange(0, w + 1)]))
+    return _setop(rng, ver)
+
+
+def _tok_x(op):
+    if op[0] == 'm' and op[1] == 's':
+        return 'm:' + hexs(op[2])            # hexs gives 's:<hex>'
+    return _tok(op)
+
+
 def _tok(op):
     # the model only needs to know "not an int": the junk kind stays on the implementation side
     return ':'.join(str(t) for t in (op[:2] if op[1] == 'j' else op))
@@ -100,6 +219,24 @@ def generate(rng, tier):
                               'sets/v%d' % ver, ('sets', ver, v, p, ops)))
             cases.append(Case('net_sets_trace %d %d %d %s' % (ver, v, p, plist(_tok(o) for o in ops)),
                               'setsT/v%d' % ver, ('setsT', ver, v, p, ops)))
+        for _ in range(250 * mult):
+            v, p = rand_value(rng, w), rng.randrange(0, w + 1)
+            ops = tuple(_setop_x(rng, ver) for _ in range(rng.randrange(1, 7)))
+            cases.append(Case('net_sets_x pl %d %d %d %s' % (ver, v, p, plist(_tok_x(o) for o in ops)),
+                              'setsX/v%d' % ver, ('setsX', ver, v, p, ops)))
+            cases.append(Case('net_sets_x_trace pl %d %d %d %s' % (ver, v, p, plist(_tok_x(o) for o in ops)),
+                              'setsXT/v%d' % ver, ('setsXT', ver, v, p, ops)))
+    # every prefix of both families once as printed text, once as C-literal hex, on a network of the same family
+    for ver in (4, 6):
+        w = W[ver]
+        m = (1 << w) - 1
+        for p in range(w + 1):
+            mask = m ^ ((1 << (w - p)) - 1)
+            texts = [_quad(mask), '0x%x' % mask, '%d' % mask] if ver == 4 else [_spell6(rng, mask)]
+            ops = tuple(('m', 's', t) for t in texts if all(ord(c) < 128 for c in t))
+            v, p0 = rand_value(rng, w), rng.randrange(0, w + 1)
+            cases.append(Case('net_sets_x pl %d %d %d %s' % (ver, v, p0, plist(_tok_x(o) for o in ops)),
+                              'setsX/every/v%d' % ver, ('setsX', ver, v, p0, ops)))
     return cases
 
 
@@ -156,9 +293,10 @@ def impl(c):
         except Exception as e:
             nb = '!' + errname(e)
         return ' '.join([tf(ip.is_netmask()), tf(ip.is_hostmask()), nb])
-    if a[0] in ('sets', 'setsT'):
+    if a[0] in ('sets', 'setsT', 'setsX', 'setsXT'):
         _, ver, v, p, ops = a
-        traced = a[0] == 'setsT'
+        traced = a[0] in ('setsT', 'setsXT')
+        exact = a[0] in ('setsX', 'setsXT')
         if traced:
             n, log = _spy_net(ver, v, p)
         else:
@@ -170,6 +308,10 @@ def impl(c):
                 arg = x[1]
             elif x[0] == 'a':
                 arg = IPAddress(x[2], x[1])
+            elif x[0] == 's':
+                arg = x[1]
+            elif x[0] == 'n':
+                arg = common.make_net(x[1], x[2], x[3])
             elif kind == 'm':
                 arg = [1, 2]
             else:
@@ -187,7 +329,7 @@ def impl(c):
                 out.append(_show(n))
             except Exception as e:
                 en = errname(e)
-                out.append(('!E' if en in ALLOWED else '!other:' + en) + '~' + _show(n))
+                out.append((('!' + en if exact else '!E') if en in ALLOWED else '!other:' + en) + '~' + _show(n))
             if traced:
                 out[-1] += '#%d' % len(log)
         return ';'.join(out)
@@ -215,6 +357,8 @@ def oracle(c, got):
         hm = [p for p in range(w + 1) if v == (1 << (w - p)) - 1]
         exp = '%s %s %d' % (tf(bool(nm)), tf(bool(hm)), nm[0] if nm else w)
         return None if got == exp else 'mask predicates %s, expected %s' % (got, exp)
+    if a[0] in ('setsX', 'setsXT'):
+        return _oracle_x(a, got)
     if a[0] in ('sets', 'setsT'):
         _, ver, v, p, ops = a
         traced = a[0] == 'setsT'
@@ -253,6 +397,72 @@ def oracle(c, got):
     return None
 
 
+def _readings(x):
+    """the (family, value) readings the property allows for IPAddress(x) of a netmask-setter argument (None = refused),
+    from the independent references of the C01 harness (inet_aton grammar, RFC 4291 grammar)"""
+    if x[0] == 'i':
+        mv = x[1]
+        return [(4, mv) if 0 <= mv <= 0xffffffff else ((6, mv) if 0 <= mv < (1 << 128) else None)]
+    if x[0] == 'a':
+        return [(x[1], x[2])]
+    if x[0] == 'n':
+        return [(x[1], x[2])]
+    if x[0] == 's':
+        from props.c01 import expect_parse
+        mand, allowed = expect_parse(x[1], None, 0)
+        outs = [mand] if mand is not None else sorted(allowed)
+        res = []
+        for o in outs:
+            if o.startswith('!'):
+                res.append(None)
+            else:
+                f, val = o.split(' ')
+                res.append((int(f), int(val)))
+        return res
+    return [None]
+
+
+def _oracle_x(a, got):
+    """the property over the real output: every assignment either keeps the object and raises one of the three
+    classes, or changes exactly the assigned field; a netmask assignment is accepted exactly when the argument
+    reads (independently) as the netmask of some prefix in the network's own family"""
+    _, ver, v, p, ops = a
+    traced = a[0] == 'setsXT'
+    w = W[ver]
+    m = (1 << w) - 1
+    steps = got.split(';')
+    if len(steps) != len(ops):
+        return 'malformed output'
+    for op, s in zip(ops, steps):
+        kind, x = op[0], op[1:]
+        oks = []            # acceptable outcomes: (v, p) or None = must be rejected
+        if kind == 'v':
+            oks = [(x[1], p) if x[0] == 'i' and 0 <= x[1] <= m else None]
+        elif kind == 'p':
+            oks = [(v, x[1]) if x[0] == 'i' and 0 <= x[1] <= w else None]
+        else:
+            for r in _readings(x):
+                ok = None
+                if r is not None and r[0] == ver:
+                    nm = [q for q in range(w + 1) if r[1] == m ^ ((1 << (w - q)) - 1)]
+                    if nm:
+                        ok = (v, nm[0])
+                oks.append(ok)
+        exps = []
+        for ok in oks:
+            if ok is None:
+                for cls in ALLOWED:
+                    exps.append(('!%s~%d:%d/%d' % (cls, ver, v, p) + ('#0' if traced else ''), (v, p)))
+            else:
+                exps.append(('%d:%d/%d' % (ver, ok[0], ok[1]) + ('#1' if traced else ''), ok))
+        hit = [st for e, st in exps if e == s]
+        if not hit:
+            return 'setter %s (%r) gave %s, expected %s' % (_tok(op) if x[0] != 's' else 'm:str', x[-1] if x[0] == 's' else x,
+                                                            s, ' or '.join(sorted(set(e for e, _ in exps))))
+        v, p = hit[0]
+    return None
+
+
 def repro(c):
     a = c.args
     if a[0] == 'attrs':
@@ -265,7 +475,7 @@ def repro(c):
 def shrink(c, fails):
     """drop setter operations while the history still violates the property"""
     a = c.args
-    if a[0] not in ('sets', 'setsT'):
+    if a[0] not in ('sets', 'setsT', 'setsX', 'setsXT'):
         return c
     kind, ver, v, p, ops = a
     red = common.shrink_seq(ops, lambda l: len(l) >= 1 and fails(Case(None, c.tag, (kind, ver, v, p, tuple(l)))))
